@@ -90,6 +90,32 @@ def check(ctx):
         ctx.shape_is("R-1D", f"fit: pxy_ shape [{tag}]", ctx.attr(st, o, "pxy_"), ("M",) if oned else ("M", "P"), site, tag)
         nc = ctx.attr(st, o, "n_components_")
         ctx.ob("NF-API", f"fit: n_components_ is the requested number [{tag}]", nc is not None and nc.dim is not None and repr(nc.dim) == "K", f"{nc!r}", site, tag, nontrivial=False)
+    # 1-D target with the default number of components (n_components=None -> min(n, m), arpack: one less):
+    # the flattening must use the fitted count, the hyper-parameter is None
+    for solver in ("full", "arpack"):
+        seen = {}
+
+        def route_n(interp, clo, args, kw, st_, node):
+            h = st_.heap[clo.self_v.obj.id]
+            kd = h["n_components_"].dim
+            seen["k"] = kd
+            h["pxt_"] = pc.farr(T("sym", "pxt"), "M", kd)
+            h["pty_"] = pc.farr(T("sym", "pty"), kd, 1)
+            h["ptx_"] = pc.farr(T("sym", "ptx"), kd, "M")
+            return vconst(None)
+
+        I = ctx.interp(assume=protocols.assume_default, stubs={"PCovR._fit_feature_space": route_n, "PCovR._fit_sample_space": route_n})
+        st = State()
+        o = ctx.construct(I, st, cls, mixing=scalar("alpha", 0, 1), svd_solver=solver, space="feature")
+        ctx.call_method(I, st, o, "fit", arr("X", "N", "M"), arr("Y", "N"))
+        site = ctx.site(P.method(cls, "fit"))
+        tag = f"1-D y, n_components=None, {solver}"
+        kd = seen.get("k")
+        if ctx.ob("R-1D", f"fit: default component count resolved before the projectors are built [{tag}]", kd is not None and kd.known(), f"n_components_ = {kd!r}", site, tag):
+            ctx.shape_is("R-1D", f"fit: pty_ is flattened to the fitted number of components [{tag}]", ctx.attr(st, o, "pty_"), (kd,), site, tag)
+            ctx.shape_is("R-1D", f"fit: pxy_ is a coefficient vector [{tag}]", ctx.attr(st, o, "pxy_"), ("M",), site, tag)
+    # ---- construction of pxt_, ptx_, pty_ in both spaces (shared with C03) ---------------------------------
+    pc.projectors(ctx, N, "NF-API")
     # ---- R-NESTED + spectrum (shared) ----------------------------------------------------------------------
     pc.spectrum(ctx, N)
     # ---- NF-ROUNDTRIP (feature space) -------------------------------------------------------------------------
